@@ -7,6 +7,8 @@ Rules compare shapes of code; several spellings of the same behaviour must there
     N9  if a: (if b: S)  ->  if a and b: S                            (no else on either)
     N10 X = p if c else q  /  return p if c else q  ->  the if-statement it abbreviates
     N12 [e(k) for k in (c0, c1)]  ->  [e(c0), e(c1)]                   (literal tuple / list of constants)
+    N13 X = []; for T in IT: X.append(E)  ->  X = [E for T in IT]      (adjacent; also with one `if C:` around the append; T not read elsewhere)
+    N14 np.zeros(shape=s) -> np.zeros(s); np.full(fill_value=c, shape=s) -> np.full(s, c); positional dtype -> dtype=   (numpy constructors in one spelling)
     N7  X = E; <statement reading X once>  ->  <statement with E>       (X bound once and read once; adjacent statements; applied repeatedly)
     N3  X = E; return X  ->  return E                             (adjacent statements; X not captured by a nested function)
     N4  operands of + and * chains in a fixed order (constants last)   (only where no operand can be a string / list / tuple; never matrix products)
@@ -42,6 +44,31 @@ class _Exprs(ast.NodeTransformer):
         return n
 
 
+_NP_CTORS = {"zeros": ("shape", "dtype"), "ones": ("shape", "dtype"), "empty": ("shape", "dtype"), "full": ("shape", "fill_value", "dtype")}
+
+
+def _visit_Call(self, n):
+    """N14: numpy constructors in one spelling - shape (and fill_value) positional, dtype by keyword: np.zeros(shape=s) -> np.zeros(s); np.full(fill_value=c, shape=s) -> np.full(s, c)"""
+    self.generic_visit(n)
+    f = n.func
+    if isinstance(f, ast.Attribute) and isinstance(f.value, ast.Name) and f.value.id in ("np", "numpy") and f.attr in _NP_CTORS \
+            and not any(isinstance(a, ast.Starred) for a in n.args) and all(k.arg is not None for k in n.keywords):
+        order = _NP_CTORS[f.attr]
+        lead = [x for x in order if x != "dtype"]
+        kws = {k.arg: k for k in n.keywords}
+        args = list(n.args)
+        if len(args) > len(order):
+            return n
+        # positional dtype -> keyword
+        if len(args) == len(order) and "dtype" not in kws:
+            kws["dtype"] = ast.keyword(arg="dtype", value=args.pop())
+        while len(args) < len(lead) and lead[len(args)] in kws:
+            args.append(kws.pop(lead[len(args)]).value)
+        n.args = args
+        n.keywords = [k for k in n.keywords if k.arg in kws] + [k for a, k in kws.items() if k not in n.keywords]
+    return n
+
+
 def _unroll_comp(self, n):
     """N12: [e(k) for k in (c0, c1, ...)] over a literal tuple / list of constants is the list [e(c0), e(c1), ...]"""
     self.generic_visit(n)
@@ -61,6 +88,7 @@ def _unroll_comp(self, n):
 
 
 _Exprs.visit_ListComp = _unroll_comp
+_Exprs.visit_Call = _visit_Call
 
 
 def _visit_BinOp(self, n):
@@ -101,6 +129,9 @@ class _Passthrough:
     def stmt(self, st):
         return st
 
+    def _append_loop(self, st, nxt):
+        return None
+
     def block_done(self, stmts):
         return _Stmts.block(self, stmts)
 
@@ -140,6 +171,11 @@ class _Stmts:
         i = 0
         while i < len(body):
             st = body[i]
+            # N13: X = []; for T in IT: X.append(E)   ->   X = [E for T in IT]      (also with one `if C:` around the append)
+            comp = self._append_loop(st, body[i + 1] if i + 1 < len(body) else None)
+            if comp is not None:
+                st = comp
+                i += 1
             # N10: a conditional expression that is the whole value of an assignment / return is the if-statement it abbreviates
             if isinstance(st, (ast.Assign, ast.Return)) and isinstance(st.value, ast.IfExp) and (isinstance(st, ast.Return) or (len(st.targets) == 1 and isinstance(st.targets[0], ast.Name))):
                 ie = st.value
@@ -199,6 +235,33 @@ class _Stmts:
                     return out[:k] + [new_if] + st.body
             i += 1
         return out
+
+    def _append_loop(self, st, nxt):
+        if not (isinstance(st, ast.Assign) and len(st.targets) == 1 and isinstance(st.targets[0], ast.Name) and isinstance(st.value, ast.List) and not st.value.elts):
+            return None
+        if not (isinstance(nxt, ast.For) and not nxt.orelse and len(nxt.body) == 1 and self.func is not None):
+            return None
+        x = st.targets[0].id
+        inner, cond = nxt.body[0], None
+        if isinstance(inner, ast.If) and not inner.orelse and len(inner.body) == 1:
+            inner, cond = inner.body[0], inner.test
+        if not (isinstance(inner, ast.Expr) and isinstance(inner.value, ast.Call) and isinstance(inner.value.func, ast.Attribute) and inner.value.func.attr == "append"
+                and isinstance(inner.value.func.value, ast.Name) and inner.value.func.value.id == x and len(inner.value.args) == 1 and not inner.value.keywords
+                and not isinstance(inner.value.args[0], ast.Starred)):
+            return None
+        elt = inner.value.args[0]
+        if any(_names(e, x) for e in (elt, nxt.iter, nxt.target) + ((cond,) if cond is not None else ())):
+            return None
+        if any(isinstance(m, (ast.Yield, ast.YieldFrom, ast.Await, ast.NamedExpr)) for e in (elt, nxt.iter) + ((cond,) if cond is not None else ()) for m in ast.walk(e)):
+            return None
+        # the loop variable of a for statement survives the loop, that of a comprehension does not: only when it is not read elsewhere
+        tnames = {m.id for m in ast.walk(nxt.target) if isinstance(m, ast.Name)}
+        inside = {id(m) for m in ast.walk(nxt)}
+        for m in ast.walk(self.func):
+            if isinstance(m, ast.Name) and m.id in tnames and id(m) not in inside:
+                return None
+        comp = ast.ListComp(elt=elt, generators=[ast.comprehension(target=nxt.target, iter=nxt.iter, ifs=[cond] if cond is not None else [], is_async=0)])
+        return ast.copy_location(ast.Assign(targets=[ast.Name(id=x, ctx=ast.Store())], value=ast.copy_location(comp, nxt)), st)
 
     def block_done(self, stmts: List[ast.stmt]) -> List[ast.stmt]:
         """statements that were already processed one by one: only the block-level rewrites (N3, N6 hoisting) remain to be applied"""
